@@ -187,7 +187,8 @@ class GWCSAPIMixin(BaseHighLevelWCS, BaseLowLevelWCS):
         if value is None:
             self._pixel_shape = None
         else:
-            self._pixel_shape = value[::-1]
+            # the same shape, reversed: checked and copied as ``pixel_shape`` is
+            self.pixel_shape = value[::-1]
 
     @property
     def pixel_bounds(self):
